@@ -113,6 +113,20 @@ def gen_ops() -> str:
     return "\n".join(lines)
 
 
+def gen_eval() -> str:
+    """the transpile-time evaluator's whitelists: `_SAFE_CASTS` (callables it may apply to a constant) and `_SAFE_NAME_REFERENCES`
+    (names `_expr_has_name` does not count as variables), sorted"""
+    import importlib
+    pa = importlib.import_module("Reduino.transpile.parser")
+    lines = ["namespace Reduino.Gen.Eval", ""]
+    lines.append("def safeCasts : List String := " + llist(sorted(pa._SAFE_CASTS)))
+    lines.append("/-- the Python callable behind each cast name, by its own `__name__` (a cast bound to anything but the builtin of that name is a change of meaning) -/")
+    lines.append("def safeCastTargets : List (String × String) := " + llist(sorted((k, getattr(v, "__name__", repr(v))) for k, v in pa._SAFE_CASTS.items()), lambda kv: "(" + lstr(kv[0]) + ", " + lstr(kv[1]) + ")"))
+    lines.append("def safeNames : List String := " + llist(sorted(pa._SAFE_NAME_REFERENCES)))
+    lines += ["", "end Reduino.Gen.Eval", ""]
+    return "\n".join(lines)
+
+
 def probe_bindings(max_shapes=None):
     """black-box table of what the transpiler does with every call shape Python accepts (C08):
     [(cls, meth, params, [(npos, kws, outcome, unseen)])] — outcome 'reject' | 'ok'; `unseen` = provided parameters whose
@@ -180,7 +194,7 @@ def gen_bind() -> str:
     return "\n".join(lines)
 
 
-GENERATORS = {"Host": gen_host, "Pio": gen_pio, "Buzzer": gen_buzzer, "Bind": gen_bind, "Ops": gen_ops}
+GENERATORS = {"Host": gen_host, "Pio": gen_pio, "Buzzer": gen_buzzer, "Bind": gen_bind, "Ops": gen_ops, "Eval": gen_eval}
 # generators that are slow (they probe the transpiler) run only for the checks that need them, and in setup
 NEEDS = {"Bind": {"C08"}}
 
